@@ -27,10 +27,32 @@
 #include "vf_atomic.h"
 #include "vf_out.h"
 
+// every standard header the quill headers below pull in is included before the token is redefined
+#include <algorithm>
+#include <atomic>
+#include <cassert>
+#include <cctype>
+#include <cerrno>
+#include <chrono>
+#include <cstddef>
+#include <cstdint>
+#include <cstdlib>
+#include <cstring>
+#include <ctime>
+#include <exception>
+#include <initializer_list>
+#include <limits>
+#include <memory>
+#include <string_view>
+#include <type_traits>
+#include <x86intrin.h>
+
 #define atomic vf_atomic
 #include "quill/core/BoundedSPSCQueue.h"
 #include "quill/core/UnboundedSPSCQueue.h"
+#include "quill/core/ThreadContextManager.h"
 #undef atomic
+#include "quill/backend/ThreadUtilities.h" // get_thread_id / get_thread_name used by the ThreadContext constructor
 
 namespace wmm
 {
@@ -630,6 +652,42 @@ static void tramp()
 static constexpr size_t STACK = 256 * 1024;
 static char* g_stacks[MAXT] = {nullptr, nullptr, nullptr};
 
+// ------------------------------------------------------------------------------------------------------------
+// C08 (drop counter): the real ThreadContext::increment_failure_counter (frontend side of a dropped statement) against the
+// real ThreadContext::get_and_reset_failure_counter (backend's report), at the granularity of their atomic operations:
+// what the reports add up to, plus what is left when both sides are done, must equal the number of increments.
+// ops: iN = the producer increments N times; gM = the consumer fetches M times
+struct CounterHarness
+{
+  quill::detail::ThreadContext* ctx{nullptr};
+  size_t incs{0}, gets{0}, reported{0};
+  unsigned stalls{0};
+  void setup()
+  {
+    W->allow_unordered_writers = true;
+    for (auto const& o : g_cfg.ops)
+      (o.kind == 'i' ? incs : gets) += o.n;
+    ctx = new quill::detail::ThreadContext(quill::QueueType::BoundedDropping, 64, 64, quill::HugePagesPolicy::Never);
+  }
+  void producer()
+  {
+    for (size_t i = 0; i < incs; ++i) ctx->increment_failure_counter();
+  }
+  void consumer()
+  {
+    for (size_t i = 0; i < gets; ++i) reported += ctx->get_and_reset_failure_counter();
+  }
+  void probe()
+  {
+    // both threads joined: the next report picks up the rest
+    size_t const rest = ctx->get_and_reset_failure_counter();
+    if (reported + rest != incs)
+      fail("drop-count-lost-update", "the reports add up to " + std::to_string(reported) + " + " + std::to_string(rest) + " left, " + std::to_string(incs) + " statements were counted as dropped");
+    if (ctx->get_and_reset_failure_counter() != 0) fail("drop-count-not-reset", "a second report right after the first is not zero");
+  }
+  void teardown() { delete ctx; }
+};
+
 struct ExecResult
 {
   std::vector<Point> trace;
@@ -772,6 +830,7 @@ static std::string cfg_string()
   for (auto const& o : g_cfg.ops) ops += (ops.empty() ? "" : ",") + std::string(1, o.kind) + std::to_string(o.n);
   if (g_cfg.mode == "bounded")
     return "mode=bounded itype=" + g_cfg.itype + " cap=" + std::to_string(g_cfg.cap) + " percent=" + std::to_string(g_cfg.percent) + " preset=" + std::to_string(g_cfg.preset) + " ops=" + ops;
+  if (g_cfg.mode == "counter") return "mode=counter ops=" + ops;
   return "mode=unbounded initial=" + std::to_string(g_cfg.initial) + " max=" + std::to_string(g_cfg.maxcap) + " ops=" + ops;
 }
 
@@ -939,6 +998,7 @@ int main(int argc, char** argv)
   auto dispatch = [&a]() -> int
   {
     if (g_cfg.mode == "unbounded") return explore<UnboundedHarness>(a);
+    if (g_cfg.mode == "counter") return explore<CounterHarness>(a);
     if (g_cfg.itype == "u8") return explore<BoundedHarness<quill::detail::BoundedSPSCQueueImpl<uint8_t>>>(a);
     if (g_cfg.itype == "u16") return explore<BoundedHarness<quill::detail::BoundedSPSCQueueImpl<uint16_t>>>(a);
     return explore<BoundedHarness<quill::detail::BoundedSPSCQueueImpl<size_t>>>(a);
